@@ -23,7 +23,7 @@ func (*prop) ID() string    { return "C05" }
 func (*prop) Level() string { return "exploration" }
 func (*prop) Rule() string {
 	return "modules with k = 4 packages built to trip per-package state: the packages share type names on purpose, every package needs the runtimedoc helper and deepcopy dependencies (real generators), a scripted stateful generator with a counting New emits a helper once per instance, skips names its instance has already seen and numbers its calls, " +
-		"a generator registered as a prototype WITHOUT New whose prototype carries non-zero state (gengo must build a zero instance per package), and every package references a different set of imports whose local names clash across packages (x/model + y/model in p1 but only y/model in p2, only x/model in p3 but y/model + x/model in p4, math/rand + x/rand, text/template + html/template ...). " +
+		"an analysing generator that renders what ResultsOf answers for every function of the package and (asked through it) of its module-local imports - the packages hold diamond-shaped and mutually recursive call chains, with handlers in p2 (imports p3) and p4 (imports p1) calling into them, so that universe-wide memoisation of partial answers shows -, a generator registered as a prototype WITHOUT New whose prototype carries non-zero state (gengo must build a zero instance per package), and every package references a different set of imports whose local names clash across packages (x/model + y/model in p1 but only y/model in p2, only x/model in p3 but y/model + x/model in p4, math/rand + x/rand, text/template + html/template ...). " +
 		"All 15 non-empty subsets of the packages are run as direct entrypoints (non-All) in two orders, plus All runs from one entrypoint whose import closure pulls in the others, each from a byte-identical restored tree; the reference runs of {P} alone and every third combined run happen in fresh child processes (so process-global state can neither mask nor fake a difference), the others in the long-lived worker process. Oracles: the files of package P in run S are byte-identical to the files of P in the run {P}, for every P in S; the number of generator instances created (New calls) equals generators x executed packages; the registered prototype is never used directly. " +
 		"Non-trivial = a run with >= 2 packages; distinct by hash of (module, subset, order)."
 }
@@ -124,10 +124,10 @@ func (p *prop) runModule(c core.Case, w *core.Worker, res *core.Result, r *rand.
 	// package-level tags differ per package on purpose: a tag of an earlier package must not enable (or
 	// parameterise) a generator in a later one; the run also passes non-nil Globals
 	tagSets := [][]string{
-		{"+gengo:state", "+gengo:proto", "+gengo:runtimedoc", "+gengo:deepcopy", "+gengo:state:opt=p1"},
-		{"+gengo:state", "+gengo:runtimedoc"},
-		{"+gengo:proto", "+gengo:deepcopy", "+gengo:state:opt=p3"},
-		{"+gengo:state", "+gengo:proto", "+gengo:runtimedoc", "+gengo:deepcopy"},
+		{"+gengo:state", "+gengo:proto", "+gengo:runtimedoc", "+gengo:deepcopy", "+gengo:state:opt=p1", "+gengo:analyze"},
+		{"+gengo:state", "+gengo:runtimedoc", "+gengo:analyze"},
+		{"+gengo:proto", "+gengo:deepcopy", "+gengo:state:opt=p3", "+gengo:analyze"},
+		{"+gengo:state", "+gengo:proto", "+gengo:runtimedoc", "+gengo:deepcopy", "+gengo:analyze"},
 	}
 	globals := map[string][]string{"gengo:unrelated": {"x"}, "gengo:other:opt": {"g"}}
 	dirs := []string{"p1", "p2", "p3", "p4"}
@@ -140,6 +140,26 @@ func (p *prop) runModule(c core.Case, w *core.Worker, res *core.Result, r *rand.
 			pk.Imports = []string{mod + "/p1", mod + "/p2", mod + "/p3"}
 		}
 		pk.Write(m)
+		// functions for the analysing generator (it asks ResultsOf for every function of the package and of its
+		// imports): every package has the same "store" functions (a diamond: Load calls Check, mutual recursion), p2
+		// and p4 have "handlers" that call into an imported package's store functions in an order that visits a
+		// callee before the caller that also calls it. p2 imports p3 (importer sorts first), p4 imports p1 (importer
+		// sorts last): whichever order packages are processed in, what one package's analysis left behind must not
+		// change another's.
+		fsrc := "package " + d + "\n\n"
+		if dep := map[string]string{"p2": "p3", "p4": "p1"}[d]; dep != "" {
+			fsrc += "import store \"" + mod + "/" + dep + "\"\n\n" +
+				"func Handle(n int) error {\n\tif err := store.Check(n); err != nil {\n\t\treturn err\n\t}\n\treturn store.Load(n)\n}\n\n" +
+				"func HandleMutual(n int) error {\n\tif err := store.Mutual2(n); err != nil {\n\t\treturn err\n\t}\n\treturn store.Mutual1(n)\n}\n\n" +
+				"func HandleValue(n int) (any, error) {\n\tif n > 0 {\n\t\treturn store.Value(n)\n\t}\n\treturn nil, store.Check(n)\n}\n\n"
+		}
+		fsrc += "type NotFound struct{}\n\nfunc (*NotFound) Error() string { return \"not found\" }\n\ntype Invalid struct{}\n\nfunc (*Invalid) Error() string { return \"invalid\" }\n\n" +
+			"func Check(n int) error {\n\tif n < 0 {\n\t\treturn &Invalid{}\n\t}\n\treturn nil\n}\n\n" +
+			"func Load(n int) error {\n\tif err := Check(n); err != nil {\n\t\treturn err\n\t}\n\tif n == 0 {\n\t\treturn &NotFound{}\n\t}\n\treturn nil\n}\n\n" +
+			"func Mutual1(n int) error {\n\tif n == 0 {\n\t\treturn &Invalid{}\n\t}\n\treturn Mutual2(n - 1)\n}\n\n" +
+			"func Mutual2(n int) error {\n\tif n == 0 {\n\t\treturn &NotFound{}\n\t}\n\treturn Mutual1(n - 1)\n}\n\n" +
+			"func Value(n int) (any, error) {\n\tif n == 1 {\n\t\treturn \"one\", nil\n\t}\n\tif err := Load(n); err != nil {\n\t\treturn nil, err\n\t}\n\treturn n, Check(n)\n}\n"
+		m.MustWrite(filepath.Join(d, "funcs.go"), fsrc)
 		// a documented struct with a same-package struct field: runtimedoc helper + deepcopy dependency
 		m.MustWrite(filepath.Join(d, "doc_types.go"), fmt.Sprintf("package %s\n\n// Doc%d has docs.\ntype Doc%d struct {\n\t// Inner field\n\tInner Shared1\n\t// Name of it\n\tName string\n\tTags []string\n\tM map[string]int\n\tEmb%d\n}\n\n// Emb%d is embedded.\ntype Emb%d struct {\n\t// X marks\n\tX int\n}\n", d, i, i, i, i, i))
 		// fixed collision structure (names chosen under a collision in a package processed earlier must not leak into
@@ -166,7 +186,7 @@ func (p *prop) runModule(c core.Case, w *core.Worker, res *core.Result, r *rand.
 		}
 		state.Pkg[mod+"/"+d] = specgen.Behav{Mode: "stateful", Salt: "s", Imports: imps}
 	}
-	gens := []specgen.GenSpec{state, {Name: "proto", Proto: true}, {Name: "runtimedoc", Real: true}, {Name: "deepcopy", Real: true}}
+	gens := []specgen.GenSpec{state, {Name: "analyze", Def: specgen.Behav{Mode: "analyze"}}, {Name: "proto", Proto: true}, {Name: "runtimedoc", Real: true}, {Name: "deepcopy", Real: true}}
 	restore := func() *fixture.Module {
 		_ = os.RemoveAll(root)
 		if err := fixture.CopyTree(pristine, root); err != nil {
